@@ -13,10 +13,33 @@ theorem conv_wrong_type (kind : PrefKind) (mode : TieMode) (inst : PrefInst) (t 
   rw [hk]
   simp [ht]
 
-/-- the categorical converter never looks at the data type -/
-theorem conv_cat_ignores_type (mode : TieMode) (inst : PrefInst) (s : String) :
-    convRows .cat mode { inst with dataType := s } = convRows .cat mode inst := by
-  simp [convRows, PrefKind.expected]
+/-- the `data_type` string of each of the five converters -/
+def PrefKind.typeName : PrefKind → String
+  | .soc => "soc"
+  | .soi => "soi"
+  | .toc => "toc"
+  | .toi => "toi"
+  | .cat => "cat"
+
+/-- all five converters (the categorical one included) insist on their own data type -/
+theorem expected_eq_typeName (kind : PrefKind) : kind.expected = some kind.typeName := by
+  cases kind <;> rfl
+
+/-- any of the five converters rejects an instance of another data type, with the `ValueError` -/
+theorem conv_wrong_type_all (kind : PrefKind) (mode : TieMode) (inst : PrefInst)
+    (ht : inst.dataType ≠ kind.typeName) :
+    convRows kind mode inst = .error "ValueError: wrong data type" := by
+  unfold convRows
+  rw [expected_eq_typeName]
+  simp [ht]
+
+/-- with the right data type the check is passed and the loop over the orders decides -/
+theorem conv_right_type (kind : PrefKind) (mode : TieMode) (inst : PrefInst)
+    (ht : inst.dataType = kind.typeName) :
+    convRows kind mode inst = convLoop kind mode inst.m 0 inst.orders := by
+  unfold convRows
+  rw [expected_eq_typeName]
+  simp [ht]
 
 /-! ## 2. The loop over the orders -/
 
